@@ -702,6 +702,7 @@ fn run_case(idx: &str, flags: &str, dtd: bool, limit: u32, input: &str, o: &mut 
             let (ev, ed) = error_pos_lines(&e);
             writeln!(o, "{} {}", idx, ev).unwrap();
             writeln!(o, "{} {}", idx, ed).unwrap();
+            writeln!(o, "{} EM {}", idx, hex(format!("{}", e).as_bytes())).unwrap();
             if flags.contains('g') {
                 let _ = format!("{}{:?}", e, e);
                 writeln!(o, "{} G ok 0", idx).unwrap();
